@@ -37,9 +37,11 @@ def unbound_class(name, text, spec):
         for k in call.keywords:
             if k.arg == "shape":
                 in_shape += [n for n in ast.walk(k.value) if isinstance(n, ast.Name) and n.id == name]
-    # (a) `Format(<T>_<ranks>, ...)` for a format whose rank-order spells a variant of T the program never builds
+    # (a) `Format(<T>_<ranks>, ...)` for a format whose rank-order spells a variant of T that the program never builds, or
+    # builds only in a later Einsum: the first occurrence of the name (source order) is that read
     m = runlib.NAME_RE.match(name)
-    fmt_variant = bool(m and m.group(1) in spec.decl and not assigned and reads and len(in_format) == len(reads))
+    occ = sorted(((n.lineno, n.col_offset, isinstance(n.ctx, ast.Load), n) for n in ast.walk(tree) if isinstance(n, ast.Name) and n.id == name), key=lambda x: x[:2])
+    fmt_variant = bool(m and m.group(1) in spec.decl and occ and occ[0][2] and any(occ[0][3] is n for n in in_format))
     # (b) the forced explicit shape of an output rank made by flatten(): `shape=[.., JM, ..]`
     flats = set("".join(f) for f in partition_info(spec)[1])
     return {"unbound_is_format_tensor_variant": fmt_variant,
@@ -112,13 +114,9 @@ def static_conditions(ctx, it, spec, text_m, text_p, stats):
                 seen.setdefault((comp, x), set()).update(ld for o2, x2, ld in m["leaders"] if o2 == o and x2 == x)
         stats["lf_shared_rank_other_leader"] += 1 if any(len(v) > 1 for v in seen.values()) else 0
     stats["metrics_swizzles_for_mergers"] += (it.get("meta") or {}).get("mergers", 0) if isinstance(it.get("meta"), dict) else 0
-    for names, args, line in patterns.lf_payload_problems(text_m):
-        bad += 1
-        # the execution of this very program (below, unless compiled only) is the failing-input search
-        ctx.violation({"kind": "leader-follower-payload-order"},
-                      "payload pattern names operands %s but Fiber.intersection is given %s (payloads come in argument order): %s" % (names, args, line),
-                      {"yaml": it["yaml"], "text": text_m, "line": line}, no_input=True)
-    return bad
+    # reported after the executions of this very program (the failing-input search; a compiled-only item is then executed too)
+    it["lf_problems"] = patterns.lf_payload_problems(text_m)
+    return bad + len(it["lf_problems"])
 
 
 def run(ctx):
@@ -172,20 +170,32 @@ def run(ctx):
         static_bad += static_conditions(ctx, it, spec, text_m, text_p, stats)
         if it.get("static_only"):
             stats["static_only"] += 1
-            continue
+            if not it.get("lf_problems"):
+                continue
         stats["by_kind"][kind] = stats["by_kind"].get(kind, 0) + 1
         if "meta" in it and "cache" in it["meta"]:
             i = str(it["meta"]["intersector"])
             stats["intersector"][i] = stats["intersector"].get(i, 0) + 1
             stats["cache"] += 1 if it["meta"]["cache"] else 0
-        syms = {k: rng.randint(1, 4) for k in partition_info(spec)[0]}
-        ext = runlib.default_extents(spec, rng, 1, 5)
-        data, scal = runlib.gen_inputs(spec, ext, rng, density=rng.choice([1.0, 0.7, 0.4]))
-        cm = execlib.Case(spec, text_m, ext, data, scal, extra_ints=syms, meta={"kind": kind, "mode": "metrics"})
-        cp = execlib.Case(spec, text_p, ext, data, scal, extra_ints=syms, meta={"kind": kind, "mode": "plain"})
-        cm.partner = cp
-        cases += [cm, cp]
+        it["cases"] = []
+        for rep in range(4 if it.get("lf_problems") else 1):       # a broken side condition: several inputs
+            syms = {k: rng.randint(1, 4) for k in partition_info(spec)[0]}
+            ext = runlib.default_extents(spec, rng, 1 if rep == 0 else 2, 5)
+            data, scal = runlib.gen_inputs(spec, ext, rng, density=rng.choice([1.0, 0.7, 0.4]) if rep == 0 else 1.0)
+            cm = execlib.Case(spec, text_m, ext, data, scal, extra_ints=syms, meta={"kind": kind, "mode": "metrics"})
+            cp = execlib.Case(spec, text_p, ext, data, scal, extra_ints=syms, meta={"kind": kind, "mode": "plain"})
+            cm.partner = cp
+            cases += [cm, cp]
+            it["cases"].append(cm)
     execlib.evaluate(cases, "c11")
+    for it in items:
+        for names, args, line in it.get("lf_problems") or []:
+            failing = [c for c in it.get("cases", []) if not (c.result["status"] == "RAN" and c.result["out"] == "OK")]
+            rep = failing[0].replay() if failing else {"yaml": it["yaml"], "text": it["cases"][0].text if it.get("cases") else None}
+            rep["line"] = line
+            ctx.violation({"kind": "leader-follower-payload-order"},
+                          "payload pattern names operands %s but Fiber.intersection is given %s (payloads come in argument order): %s%s" % (
+                              names, args, line, "; e.g. %s" % getattr(failing[0], "raw", str(failing[0].result))[:120] if failing else ""), rep, no_input=not failing)
     bad = 0
     pairs = 0
     for c in cases:
@@ -224,6 +234,14 @@ def run(ctx):
 def replay(ctx, rep):
     r = rep["replay"]
     spec = runlib.Spec(r["yaml"])
+    if rep.get("key", {}).get("kind", "").startswith(("explicit-shape", "leader-follower")) and "inputs" not in r:
+        it = {"yaml": r["yaml"], "kind": "replay"}
+        n = static_conditions(ctx, it, spec, spec.compile(arch=True), spec.compile(arch=False), __import__("collections").defaultdict(int))
+        print(spec.compile(arch=True))
+        print("static side conditions broken:", n, it.get("lf_problems"))
+        if n:
+            print("VIOLATION property=C11 replay=<given file>")
+        return 1 if n else 0
     data = {t: {tuple(int(x) for x in k.split(",") if x != ""): v for k, v in d.items()} for t, d in r["inputs"].items()}
     cs = [execlib.Case(spec, spec.compile(arch=a), r["extents"], data, r["scalars"], extra_ints=r.get("extra_ints")) for a in (True, False)]
     execlib.evaluate(cs, "c11r")
